@@ -48,7 +48,12 @@ class Target:
             raise ValueError(kind)
 
     def prior_transform(self, u):
-        return self.lo + (self.hi - self.lo) * u
+        # written per component, the way users write priors with different laws per parameter (x[0] = ..., x[1] = ...): for ONE
+        # point this is bit-identical to lo + (hi - lo) * u; handed a whole batch (n, d) it would transform rows, not parameters
+        x = np.array(u, dtype=float)
+        for j in range(self.n_dim):
+            x[j] = self.lo + (self.hi - self.lo) * u[j]
+        return x
 
     def _logl_point(self, x):
         # explicit per-coordinate arithmetic so that batch and scalar evaluation are bit-identical
@@ -107,6 +112,14 @@ class Target:
         return self._logl_point(x), float(np.sum(x * np.arange(1, self.n_dim + 1)) + 0.125 * x[0] ** 3)
 
 
+def _logl_blob2(self, x):
+    # TWO scalar blobs per point (a plain numeric blobs_dtype): different injective functions of x
+    return self._logl_point(x), float(np.sum(x * np.arange(1, self.n_dim + 1)) + 0.125 * x[0] ** 3), float(x[0] - 3.0 * x[-1] + 0.0625 * x[-1] ** 3)
+
+
+Target.logl_blob2 = _logl_blob2
+
+
 class PermutingPool:
     """Pool-like object: map(f, xs) evaluates in a seed-driven order, returns in input order (map contract)."""
 
@@ -152,6 +165,8 @@ def build_sampler(conf: dict, rec: psrun.Recorder | None, out_dir=None):
         ll, vec, bd = tgt.logl_vector_reuse, True, None
     elif ev == "blobs":
         ll, vec, bd = tgt.logl_blob, False, "float"
+    elif ev == "blobs2":
+        ll, vec, bd = tgt.logl_blob2, False, "float"
     else:
         ll, vec, bd = tgt.logl_scalar, False, None
     extra = {}
@@ -199,7 +214,7 @@ def record_run(conf: dict, n_total=32, seed=0, label="", posterior_flags=None, s
     c = dict(DEFAULTS)
     c.update(conf)
     if rec is None:
-        rec = psrun.Recorder(c["n_dim"], have_blobs=(c["evaluation"] == "blobs"), label=label)
+        rec = psrun.Recorder(c["n_dim"], have_blobs=(c["evaluation"] in ("blobs", "blobs2")), label=label)
     np.random.seed(seed)
     if sampler is None:
         sampler, c = build_sampler(conf, rec, out_dir=out_dir)
@@ -225,7 +240,7 @@ def record_run(conf: dict, n_total=32, seed=0, label="", posterior_flags=None, s
                     kw.update(ess_trim=fl[4], bins_trim=fl[5])
                 try:
                     out = sampler.posterior(**kw)
-                    rec.posterior_event(fl[:4], out, c["evaluation"] == "blobs", ess_trim=(fl[4] if len(fl) > 4 else 0.99))
+                    rec.posterior_event(fl[:4], out, c["evaluation"] in ("blobs", "blobs2"), ess_trim=(fl[4] if len(fl) > 4 else 0.99))
                 except Exception as ex:
                     rec.raised(ex)
                     break
